@@ -421,6 +421,43 @@ for lo_none in (True, False):
                                       label=f"hvsrpy.hvsr_traditional.HvsrTraditional.mean_curve_peak[f_low={'None' if lo_none else 'x'},f_high={'None' if hi_none else 'y'},kwargs={kw}]",
                                       clauses=["the mean-curve peak is the highest local maximum of the mean curve in the stored range"]))
 
+# ---------------------------------------------------------------- HvsrDiffuseField: the curve is its own mean curve; its peak is searched in the range given
+def _dfp_inputs(lo_none, hi_none, kw):
+    def mk(ex, st):
+        fields = {"frequency": ex.alloc_arr(st, (m,), FQ, "real", "param:self.frequency", tag="frequency"),
+                  "amplitude": ex.alloc_arr(st, (m,), AMP1, "real", "param:self.amplitude", tag="amplitude")}
+        st.env["self"] = sym_obj(ex, st, "HvsrDiffuseField", fields, owner="param:self")
+        st.env["distribution"] = NONE
+        st.env["search_range_in_hz"] = _range_value(lo_none, hi_none)
+        st.env["find_peaks_kwargs"] = _kwargs_value(kw)
+        st.env["m"] = m
+        return [m >= 1]
+    return mk
+
+
+DF_MEAN_CURVE = Contract(qual="hvsrpy.hvsr_diffuse_field.HvsrDiffuseField.mean_curve", params=["self", "distribution"], defaults={"distribution": None},
+                         make_inputs=_dfp_inputs(True, True, "None"), ensures=["result is self.amplitude"], modifies=[],
+                         make_result=lambda ex, st, env: st.heap[env["self"].oid].fields["amplitude"],
+                         notes="the diffuse-field curve is its own mean curve (the same array, not a copy)")
+TASKS.append(FunctionTask(DF_MEAN_CURVE, clauses=["diffuse field: the curve itself is searched"]))
+for lo_none in (True, False):
+    for hi_none in (True, False):
+        for kw in ("None", "dict"):
+            absent, present = _single(kw == "None", "result[0]", "result[1]")
+            no_peak = f"forall(i, 1, GU1 - GL - 1, not {_SLM1('i')})"
+            c = Contract(qual="hvsrpy.hvsr_diffuse_field.HvsrDiffuseField.mean_curve_peak", params=["self", "distribution", "search_range_in_hz", "find_peaks_kwargs"],
+                         ghost={"GL": GL, "GU1": GU1}, axioms=_grid_axioms(lo_none, hi_none), make_inputs=_dfp_inputs(lo_none, hi_none, kw), modifies=[],
+                         ensures=[present], raises_only_if={"ValueError": no_peak if kw == "None" else "True"},
+                         notes="peak of the diffuse-field curve = highest local maximum strictly inside the range given; otherwise ValueError")
+            TASKS.append(FunctionTask(c, registry={"HvsrDiffuseField.mean_curve": DF_MEAN_CURVE},
+                                      module_env={"HvsrCurve": ModV("HvsrCurve", {"_find_peak_bounded": fpb_call(lo_none, hi_none)})},
+                                      label=f"hvsrpy.hvsr_diffuse_field.HvsrDiffuseField.mean_curve_peak[f_low={'None' if lo_none else 'x'},f_high={'None' if hi_none else 'y'},kwargs={kw}]",
+                                      clauses=["the diffuse-field peak is the highest local maximum of the curve in the range"]))
+
+# ---------------------------------------------------------------- the azimuthal fan-out of a range update (contract and vocabulary: contracts/C06.py)
+import contracts.C06 as _C06
+TASKS += [t for t in _C06.TASKS if getattr(t, "label", "").startswith("hvsrpy.hvsr_azimuthal.HvsrAzimuthal.update_peaks_bounded")]
+
 META = dict(
     level="other",
     explanation="proved for all grids, curves and limits (four None-patterns of the range; scipy filters absent / empty / present): "
